@@ -11,8 +11,9 @@ fn load_cases(path: &str) -> Vec<Value> {
     if path.ends_with(".ndjson") { read_ndjson(path) } else { read_tagged(path, "REPLAY") }
 }
 
-fn main() {
-    if std::env::var("VH_DEBUG").is_err() { std::panic::set_hook(Box::new(|_| {})); }
+fn main() { vh::util::run_main(real_main) }
+
+fn real_main() {
     let args: Vec<String> = std::env::args().collect();
     if args.len() < 3 { usage() }
     match (args[1].as_str(), args[2].as_str()) {
